@@ -671,9 +671,9 @@ func randJSONAbs(r *rand.Rand, depth int) A {
 	return node("obj", ps)
 }
 
-// bigIntText: an integer literal (possibly quoted) beyond what a double holds exactly; such documents are only parsed as
-// their own type (the specification treats them as exact integers).
-var bigIntText = regexp.MustCompile(`^"?-?[0-9]{16,}"?$`)
+// bigIntText: an integer literal (possibly quoted) beyond what a double holds exactly, or the non-canonical spelling -0; such
+// documents are only parsed as their own type (the specification covers canonical integer literals; other spellings are C22's).
+var bigIntText = regexp.MustCompile(`^"?(-?[0-9]{16,}|-0)"?$`)
 
 func formsGen(r *rand.Rand, emit func(core.Case)) {
 	switch r.IntN(4) {
